@@ -291,6 +291,11 @@ type pipeSpec struct {
 	// more than one frame of the writer, so that the writer sends frames (and the receiver
 	// acknowledges them) while PushMetrics is still writing the batch
 	largePoints, largePad int
+	// cancel: goroutine 0 keeps the exporter busy with large pushes; the other goroutines push small
+	// batches whose context is cancelled a few milliseconds after the call starts. A push that
+	// returns an error is RETRIED with a fresh context, as a collector pipeline does: an export
+	// that reports failure must not have been delivered, or the retry delivers it twice.
+	cancel bool
 }
 
 type pushRec struct {
@@ -307,7 +312,17 @@ func pushTag(vid string) string {
 
 func runPipelineCase(name string, sp pipeSpec, seed uint64) *caseOut {
 	c := newCase("C19", name)
-	rs, err := startRecvServer(nil)
+	var cfgStream func(st *streamRec)
+	if sp.cancel {
+		// a slow consumer: the receiver stops reading while it works on a batch, gRPC flow control
+		// then holds the exporter's large writes (and its write lock) for a while
+		cfgStream = func(st *streamRec) {
+			for i := 0; i < 400; i++ {
+				st.cons.delays = append(st.cons.delays, 30*time.Millisecond)
+			}
+		}
+	}
+	rs, err := startRecvServer(cfgStream)
 	if err != nil {
 		c.note("note cannot listen on loopback: %v", err)
 		return c
@@ -334,7 +349,11 @@ func runPipelineCase(name string, sp pipeSpec, seed uint64) *caseOut {
 			gr := rng.New(seedR.U64())
 			go func(e, g int, r *rng.R) {
 				defer wg.Done()
-				for p := 0; p < sp.pushes; p++ {
+				npush := sp.pushes
+				if sp.cancel && g != 0 {
+					npush *= 12 // many small pushes, so that some wait for the lock when their context ends
+				}
+				for p := 0; p < npush; p++ {
 					tag := fmt.Sprintf("e%d-g%d-p%d", e, g, p)
 					md := genMetrics(r, tag, 1+r.Intn(sp.maxPoints))
 					if sp.largePoints > 0 && p == sp.pushes/2 {
@@ -346,15 +365,40 @@ func runPipelineCase(name string, sp pipeSpec, seed uint64) *caseOut {
 						nstale = 1
 					}
 					rec := &pushRec{tag: tag, points: flatten(md)}
+					if sp.cancel && g == 0 {
+						md = genMetricsPad(r, tag, 12000+r.Intn(4000), 700)
+						rec = &pushRec{tag: tag, points: flatten(md)}
+					}
 					var err error
-					func() {
+					push := func(ctx context.Context) {
 						defer func() {
 							if x := recover(); x != nil {
 								err = fmt.Errorf("panic: %v", x)
 							}
 						}()
-						err = exps[e].PushMetrics(context.Background(), md)
-					}()
+						err = exps[e].PushMetrics(ctx, md)
+					}
+					if sp.cancel && g != 0 {
+						ctx, cancelFn := context.WithCancel(context.Background())
+						d := time.Duration(r.Intn(8000)) * time.Microsecond
+						timer := time.AfterFunc(d, cancelFn)
+						push(ctx)
+						if ctx.Err() != nil {
+							mu.Lock()
+							c.stat("push-context-cancelled-during-call", 1)
+							mu.Unlock()
+						}
+						timer.Stop()
+						cancelFn()
+						for try := 0; err != nil && try < 3; try++ {
+							mu.Lock()
+							c.stat("push-retried-after-error", 1)
+							mu.Unlock()
+							push(context.Background())
+						}
+					} else {
+						push(context.Background())
+					}
 					if err != nil {
 						// not accepted by the exporter: outside the property
 						mu.Lock()
@@ -665,6 +709,10 @@ func runC19(want func(string) bool) {
 	for k := 0; k < 8*mult; k++ {
 		comp := []string{"none", "zstd"}[k%2]
 		add(fmt.Sprintf("pipe-multi-%d", k), pipeSpec{exporters: 2 + r.Intn(2), compression: comp, goroutines: 1 + r.Intn(4), pushes: 3 + r.Intn(8), maxPoints: 16, pause: aroundFlush})
+	}
+	for k := 0; k < 2*mult; k++ {
+		comp := []string{"none", "zstd"}[k%2]
+		add(fmt.Sprintf("pipe-cancel-%d", k), pipeSpec{exporters: 1, compression: comp, goroutines: 3, pushes: 5, maxPoints: 4, pause: short, cancel: true})
 	}
 	for k := 0; k < 2*mult; k++ {
 		comp := []string{"none", "zstd"}[k%2]
